@@ -40,6 +40,7 @@ KINDS = [
     ('props.C10', 'iterate_harness', {'max_len': 2, 'max_rounds': 3, 'outer': 1}, None),
     ('props.C15', 'channel_source_harness', {'n': 2}, None),
     ('props.C19', 'replication_algebra', {}, None),
+    ('props.C10', 'state_lock_harness', {}, None),
     ('props.C20', 'dead_channel_harness', {'adaptive': True}, None),
 ]
 
